@@ -354,6 +354,14 @@ func (l *BlockchainRpcTxWatcher) observationLoop(
 				return
 			}
 
+			// The notified height can lag behind the height the node reported
+			// while looking up the tx. If the tx was first seen above the
+			// notified height, the subtraction below would wrap around and
+			// report a fresh tx as deeply confirmed. Wait for the next block.
+			if firstSeen > current {
+				continue
+			}
+
 			// Now check if we got enough confirmations. We use first seen - 1
 			// as this is the block the tx was confirmed in the first time.
 			if current-(firstSeen-1) >= l.requiredConfs {
